@@ -13,12 +13,31 @@ Open Scope Z_scope.
 Lemma rexpr_eqb_eq a b : rexpr_eqb a b = true -> a = b.
 Proof. unfold rexpr_eqb. destruct (rexpr_eq_dec a b); [auto|discriminate]. Qed.
 
+Lemma rexprs_eqb_eq a : forall b, rexprs_eqb a b = true -> a = b.
+Proof.
+  induction a as [|x r IH]; intros [|y t] H; cbn in H; try discriminate; [reflexivity|].
+  apply andb_prop in H. destruct H as [H1 H2]. apply rexpr_eqb_eq in H1. apply IH in H2. now subst.
+Qed.
+
+Lemma rcexpr_eqb_eq a b : rcexpr_eqb a b = true -> a = b.
+Proof.
+  destruct a, b; cbn; intros H; try discriminate.
+  - apply rexpr_eqb_eq in H. now subst.
+  - apply andb_prop in H. destruct H as [H1 H2]. apply Z.eqb_eq in H1. apply rexprs_eqb_eq in H2. now subst.
+Qed.
+
+Lemma orc_eqb_eq a b : orc_eqb a b = true -> a = b.
+Proof.
+  destruct a, b; cbn; intros H; try discriminate; [|reflexivity].
+  apply rcexpr_eqb_eq in H. now subst.
+Qed.
+
 Lemma rstmt_eqb_sound :
   (forall a b : rstmt, rstmt_eqb a b = true -> a = b) /\
   (forall a b : rblock, rblock_eqb a b = true -> a = b) /\
   (forall a b : rels, rels_eqb a b = true -> a = b).
 Proof.
-  apply (gstmt_gblock_gels_ind rexpr
+  apply (gstmt_gblock_gels_ind rexpr rcexpr
     (fun a => forall b, rstmt_eqb a b = true -> a = b)
     (fun a => forall b, rblock_eqb a b = true -> a = b)
     (fun a => forall b, rels_eqb a b = true -> a = b));
@@ -28,16 +47,35 @@ Proof.
   | H : (_ =? _) = true |- _ => apply Z.eqb_eq in H; subst
   | H : Bool.eqb _ _ = true |- _ => apply Bool.eqb_prop in H; subst
   | H : rexpr_eqb _ _ = true |- _ => apply rexpr_eqb_eq in H; subst
+  | H : rcexpr_eqb _ _ = true |- _ => apply rcexpr_eqb_eq in H; subst
+  | H : orc_eqb _ _ = true |- _ => apply orc_eqb_eq in H; subst
   | IH : forall b, rblock_eqb ?a b = true -> _, H : rblock_eqb ?a _ = true |- _ => apply IH in H; subst
   | IH : forall b, rstmt_eqb ?a b = true -> _, H : rstmt_eqb ?a _ = true |- _ => apply IH in H; subst
   | IH : forall b, rels_eqb ?a b = true -> _, H : rels_eqb ?a _ = true |- _ => apply IH in H; subst
   end; reflexivity.
 Qed.
 
-Lemma reparses_true ib : reparses ib = true -> parse_block (emit_block ib) = Some (tree_of_block ib).
+Lemma idents_eqb_eq a : forall b, idents_eqb a b = true -> a = b.
 Proof.
-  unfold reparses. destruct (parse_block (emit_block ib)) as [b|]; [|discriminate].
-  intros H. apply (proj1 (proj2 rstmt_eqb_sound)) in H. now subst.
+  induction a as [|x r IH]; intros [|y t] H; cbn in H; try discriminate; [reflexivity|].
+  apply andb_prop in H. destruct H as [H1 H2]. apply Z.eqb_eq in H1. apply IH in H2. now subst.
+Qed.
+
+Lemma rprog_eqb_eq a : forall b, rprog_eqb a b = true -> a = b.
+Proof.
+  induction a as [|x r IH]; intros [|y t] H; cbn in H; try discriminate; [reflexivity|].
+  apply andb_prop in H. destruct H as [H1 H2]. apply IH in H2. subst. f_equal.
+  unfold rfn_eqb in H1. destruct x, y; cbn in *.
+  apply andb_prop in H1; destruct H1 as [H1 Hb]. apply andb_prop in H1; destruct H1 as [H1 Hr].
+  apply andb_prop in H1; destruct H1 as [Hn Hp].
+  apply Z.eqb_eq in Hn. apply idents_eqb_eq in Hp. apply Bool.eqb_prop in Hr.
+  apply (proj1 (proj2 rstmt_eqb_sound)) in Hb. now subst.
+Qed.
+
+Lemma reparses_true fs : reparses fs = true -> parse_items (emit_fns fs) = Some (tree_of_fns fs).
+Proof.
+  unfold reparses. destruct (parse_items (emit_fns fs)) as [p|]; [|discriminate].
+  intros H. apply rprog_eqb_eq in H. now subst.
 Qed.
 
 (* ---------------------------------------------------------------- environments *)
@@ -127,20 +165,194 @@ Proof.
   now rewrite H.
 Qed.
 
+(* ---------------------------------------------------------------- argument lists *)
+
+Lemma pick_map {A B} (h : A -> B) l sel : pick (map h l) sel = option_map (map h) (pick l sel).
+Proof.
+  induction sel as [|i r IH]; cbn; [reflexivity|].
+  rewrite nth_error_map, IH. destruct (nth_error l i); cbn; [|reflexivity].
+  destruct (pick l r); reflexivity.
+Qed.
+
+Lemma pick_length {A} (l : list A) sel l' : pick l sel = Some l' -> length l' = length sel.
+Proof.
+  revert l'. induction sel as [|i r IH]; cbn; intros l' H; [now injection H as <-|].
+  destruct (nth_error l i); [|discriminate]. destruct (pick l r) as [t|]; [|discriminate].
+  injection H as <-. cbn. f_equal. now apply IH.
+Qed.
+
+Lemma pick_seq_gen {A} (l pre : list A) : pick (pre ++ l) (seq (length pre) (length l)) = Some l.
+Proof.
+  revert pre. induction l as [|x r IH]; intros pre; cbn; [reflexivity|].
+  rewrite nth_error_app2 by lia. rewrite Nat.sub_diag. cbn.
+  replace (pre ++ x :: r) with ((pre ++ [x]) ++ r) by (rewrite <- app_assoc; reflexivity).
+  specialize (IH (pre ++ [x])). rewrite app_length in IH. cbn in IH. rewrite Nat.add_1_r in IH.
+  now rewrite IH.
+Qed.
+
+Lemma pick_seq {A} (l : list A) : pick l (seq 0 (length l)) = Some l.
+Proof. exact (pick_seq_gen l []). Qed.
+
+Lemma is_seq_spec l i : is_seq l i = true -> l = seq i (length l).
+Proof.
+  revert i. induction l as [|x r IH]; intros i H; cbn in *; [reflexivity|].
+  apply andb_prop in H. destruct H as [H1 H2]. apply Nat.eqb_eq in H1. subst. f_equal. now apply IH.
+Qed.
+
+Lemma select_length ps npos nx kws sel : select ps npos nx kws = Some sel -> length sel = length ps.
+Proof.
+  revert nx sel. induction ps as [|p r IH]; intros nx sel H; cbn [select] in H; [now injection H as <-|].
+  destruct (kw_index p kws npos).
+  - destruct (select r npos nx kws) eqn:E; [|discriminate]. injection H as <-. cbn. f_equal. eauto.
+  - destruct (nx <? npos)%nat; [|discriminate].
+    destruct (select r npos (S nx) kws) eqn:E; [|discriminate]. injection H as <-. cbn. f_equal. eauto.
+Qed.
+
+Lemma eval_args_length E l vs : eval_args E l = inl vs -> length vs = length l.
+Proof.
+  revert vs. induction l as [|e r IH]; cbn; intros vs H; [now injection H as <-|].
+  destruct (eval E e); try discriminate. destruct (eval_args E r); [|discriminate].
+  injection H as <-. cbn. f_equal. now apply IH.
+Qed.
+
+(* pointwise relation between written arguments and their values *)
+Lemma eval_args_forall2 E l vs : eval_args E l = inl vs -> Forall2 (fun e v => eval E e = EV v) l vs.
+Proof.
+  revert vs. induction l as [|e r IH]; cbn; intros vs H; [injection H as <-; constructor|].
+  destruct (eval E e) eqn:Ee; try discriminate. destruct (eval_args E r); [|discriminate].
+  injection H as <-. constructor; auto.
+Qed.
+
+Lemma forall2_nth {A B} (R : A -> B -> Prop) l m i a b :
+  Forall2 R l m -> nth_error l i = Some a -> nth_error m i = Some b -> R a b.
+Proof.
+  intros H. revert i. induction H; intros [|i] Ha Hb; cbn in *; try discriminate.
+  - injection Ha as <-. injection Hb as <-. assumption.
+  - eauto.
+Qed.
+
+Lemma forall2_pick {A B} (R : A -> B -> Prop) l m sel l' m' :
+  Forall2 R l m -> pick l sel = Some l' -> pick m sel = Some m' -> Forall2 R l' m'.
+Proof.
+  intros H. revert l' m'. induction sel as [|i r IH]; cbn; intros l' m' Hl Hm.
+  - injection Hl as <-. injection Hm as <-. constructor.
+  - destruct (nth_error l i) eqn:E1; [|discriminate]. destruct (pick l r); [|discriminate].
+    destruct (nth_error m i) eqn:E2; [|discriminate]. destruct (pick m r); [|discriminate].
+    injection Hl as <-. injection Hm as <-. constructor; [eapply forall2_nth; eauto|auto].
+Qed.
+
+Lemma pick_some_of_length {A B} (l : list A) (m : list B) sel l' :
+  length l = length m -> pick l sel = Some l' -> exists m', pick m sel = Some m'.
+Proof.
+  intros HL. revert l'. induction sel as [|i r IH]; cbn; intros l' H; [eauto|].
+  destruct (nth_error l i) eqn:E1; [|discriminate]. destruct (pick l r) eqn:E2; [|discriminate].
+  destruct (IH _ eq_refl) as [m' Hm']. rewrite Hm'.
+  assert (i < length m)%nat by (rewrite <- HL; apply nth_error_Some; congruence).
+  destruct (nth_error m i) eqn:E3; [eauto|]. apply nth_error_None in E3. lia.
+Qed.
+
 (* ---------------------------------------------------------------- reaching a result on the Rust side *)
 
+Definition okg (g : sig) : Prop := g <> Halt OutOfFuel /\ g <> Halt Unspec /\ g <> Halt Stuck.
+Definition okc (r : cres) : Prop := r <> CHalt OutOfFuel /\ r <> CHalt Unspec /\ r <> CHalt Stuck.
+
+Lemma okg_halt r : okg (Halt (stop_of r)) -> defined r /\ (forall v, r <> EV v).
+Proof.
+  intros (H1 & H2 & H3). destruct r; cbn in *; try congruence.
+  split; [split; congruence | intros; congruence].
+Qed.
+
+(* what the source evaluation of an expression implies for the denoted Rust term *)
+Lemma sem_val sc E e v : eval E e = EV v -> reval E (tree_of (lower_expr sc e)) = RV v.
+Proof. intros H. rewrite tree_sem; rewrite H; [reflexivity|split; congruence]. Qed.
+
+Lemma sem_zd sc E e : eval E e = EZeroDiv -> reval E (tree_of (lower_expr sc e)) = RZeroDiv.
+Proof. intros H. rewrite tree_sem; rewrite H; [reflexivity|split; congruence]. Qed.
+
+Lemma true_lit_eval sc c E : is_true_lit (lower_expr sc c) = true -> eval E c = EV (VB true).
+Proof.
+  induction c; cbn; intros H; try discriminate H.
+  - destruct b; [reflexivity|discriminate H].
+  - now apply IHc.
+Qed.
+
+Lemma range_done_refl z s : range_done z z s = true.
+Proof. unfold range_done. destruct (0 <? s); apply Z.leb_refl. Qed.
+
+Lemma okg_go : okg Go. Proof. repeat split; discriminate. Qed.
+
+(* written arguments in written order: same values, or the same ZeroDivisionError *)
+Lemma args_same_order sc E l :
+  match eval_args E l with
+  | inl vs => reval_args E (map (fun e => tree_of (lower_expr sc e)) l) = inl vs
+  | inr EZeroDiv => reval_args E (map (fun e => tree_of (lower_expr sc e)) l) = inr RZeroDiv
+  | inr _ => True
+  end.
+Proof.
+  induction l as [|e r IH]; cbn; [reflexivity|].
+  destruct (eval E e) as [v| | |] eqn:Ee; try exact I.
+  - rewrite (sem_val sc E e v Ee). destruct (eval_args E r) as [vs|[| | |]]; try exact I; now rewrite IH.
+  - now rewrite (sem_zd sc E e Ee).
+Qed.
+
+Lemma args_values sc E l vs :
+  Forall2 (fun e v => eval E e = EV v) l vs ->
+  reval_args E (map (fun e => tree_of (lower_expr sc e)) l) = inl vs.
+Proof.
+  induction 1; cbn; [reflexivity|]. rewrite (sem_val sc E x y H). now rewrite IHForall2.
+Qed.
+
+Lemma atoms_no_zd E l : forallb atom l = true -> eval_args E l <> inr EZeroDiv.
+Proof.
+  induction l as [|e r IH]; cbn; intros H; [discriminate|].
+  apply andb_prop in H. destruct H as [Ha Hr].
+  destruct e; try discriminate Ha; cbn [eval].
+  - unfold chk. destruct (in_i64b n); [|discriminate].
+    destruct (eval_args E r) as [|x] eqn:Er; [discriminate|]. intros [= ->]. now apply IH.
+  - destruct (eval_args E r) as [|x] eqn:Er; [discriminate|]. intros [= ->]. now apply IH.
+  - destruct (lookup x E) as [[z|b]|]; [| |discriminate].
+    + unfold chk. destruct (in_i64b z); [|discriminate].
+      destruct (eval_args E r) as [|y] eqn:Er; [discriminate|]. intros [= ->]. now apply IH.
+    + destruct (eval_args E r) as [|y] eqn:Er; [discriminate|]. intros [= ->]. now apply IH.
+Qed.
+
+Lemma combine_names (ps : list ident) (vs : list val) : length ps = length vs -> map fst (combine ps vs) = ps.
+Proof.
+  revert vs. induction ps as [|p r IH]; intros [|v vs] H; cbn in *; try discriminate; [reflexivity|].
+  f_equal. apply IH. lia.
+Qed.
+
+Lemma init_dom ps vs : length ps = length vs -> dom_ok (init_scopes ps) (combine ps vs).
+Proof.
+  intros H. unfold dom_ok, names, init_scopes. cbn. rewrite app_nil_r, map_map. cbn.
+  rewrite map_id. symmetry. now apply combine_names.
+Qed.
+
+Section Sim.
+Variable P : prog.
+Variable RP : rprog.
+(* every source function was lowered (with some state of mutable_vars) and its denoted item is in
+   the Rust program under the same name *)
+Hypothesis Htab : forall f d, find_fn f P = Some d ->
+  exists ib mv sc' mv',
+    lower_block P (init_scopes (fparams d)) mv (fbody d) = LOk (ib, sc', mv') /\
+    find_rfn f RP = Some {| rname := fname d; rparams := fparams d; rret := fret d; rbody := tree_of_block ib |} /\
+    calls_wf_block P (fbody d) = true.
+
 Definition reach_s (E : env) (s : rstmt) (r : xres) : Prop :=
-  exists F, forall F', (F <= F')%nat -> rexec_stmt F' E s = r.
+  exists F, forall F', (F <= F')%nat -> rexec_stmt RP F' E s = r.
 Definition reach_b (E : env) (b : rblock) (r : xres) : Prop :=
-  exists F, forall F', (F <= F')%nat -> rexec_block F' E b = r.
+  exists F, forall F', (F <= F')%nat -> rexec_block RP F' E b = r.
 Definition reach_r (E : env) (x : ident) (cur stp step : Z) (b : rblock) (r : xres) : Prop :=
-  exists F, forall F', (F <= F')%nat -> rexec_range F' E x cur stp step b = r.
+  exists F, forall F', (F <= F')%nat -> rexec_range RP F' E x cur stp step b = r.
+Definition reach_c (E : env) (c : rcexpr) (r : list line * cres) : Prop :=
+  exists F, forall F', (F <= F')%nat -> rcev_with (rcall RP F' E) E c = r.
 
 (* the else part of an `if` whose condition was false *)
 Definition relse (F : nat) (E : env) (el : rels) : xres :=
   match el with
   | GNoElse => ([], E, Go)
-  | GElse b => in_scope (length E) (rexec_block F E b)
+  | GElse b => in_scope (length E) (rexec_block RP F E b)
   end.
 Definition reach_e (E : env) (el : rels) (r : xres) : Prop :=
   exists F, forall F', (F <= F')%nat -> relse F' E el = r.
@@ -149,6 +361,75 @@ Definition tels (el : iels) : rels :=
   match el with GNoElse => GNoElse | GElse b => GElse (tree_of_block b) end.
 
 Ltac fuelS F' := destruct F' as [|F']; [lia|].
+
+(* unfolding equations (cbn would expose the partially applied mutual fixpoints) *)
+Lemma exec_assign f E k x a c : exec_stmt P (S f) E (SAssign k x a c) =
+  match cev_with (call P f E) E c with
+  | (o, CV (Some v)) =>
+      match k with
+      | BInferred => if bound x E then (o, eupdate x v E, Go) else (o, ebind x v E, Go)
+      | _ => (o, ebind x v E, Go)
+      end
+  | (o, CV None) => (o, E, Halt Stuck)
+  | (o, CHalt k0) => (o, E, Halt k0)
+  end.
+Proof. reflexivity. Qed.
+Lemma exec_print f E c : exec_stmt P (S f) E (SPrint c) =
+  match cev_with (call P f E) E c with
+  | (o, CV (Some v)) => (o ++ [line_of v], E, Go)
+  | (o, CV None) => (o, E, Halt Stuck)
+  | (o, CHalt k0) => (o, E, Halt k0)
+  end.
+Proof. reflexivity. Qed.
+Lemma exec_sexpr f E c : exec_stmt P (S f) E (SExpr c) =
+  match cev_with (call P f E) E c with
+  | (o, CV _) => (o, E, Go)
+  | (o, CHalt k0) => (o, E, Halt k0)
+  end.
+Proof. reflexivity. Qed.
+Lemma exec_ret f E c : exec_stmt P (S f) E (SReturn (Some c)) =
+  match cev_with (call P f E) E c with
+  | (o, CV (Some v)) => (o, E, Ret (Some v))
+  | (o, CV None) => (o, E, Halt Stuck)
+  | (o, CHalt k0) => (o, E, Halt k0)
+  end.
+Proof. reflexivity. Qed.
+Lemma rexec_let F E x m c : rexec_stmt RP (S F) E (GLet x m c) =
+  match rcev_with (rcall RP F E) E c with
+  | (o, CV (Some v)) => (o, ebind x v E, Go)
+  | (o, CV None) => (o, E, Halt Stuck)
+  | (o, CHalt k) => (o, E, Halt k)
+  end.
+Proof. reflexivity. Qed.
+Lemma rexec_assign F E x c : rexec_stmt RP (S F) E (GAssign x c) =
+  match rcev_with (rcall RP F E) E c with
+  | (o, CV (Some v)) => if bound x E then (o, eupdate x v E, Go) else (o, E, Halt Stuck)
+  | (o, CV None) => (o, E, Halt Stuck)
+  | (o, CHalt k) => (o, E, Halt k)
+  end.
+Proof. reflexivity. Qed.
+Lemma rexec_print F E c : rexec_stmt RP (S F) E (GPrint c) =
+  match rcev_with (rcall RP F E) E c with
+  | (o, CV (Some v)) => (o ++ [line_of v], E, Go)
+  | (o, CV None) => (o, E, Halt Stuck)
+  | (o, CHalt k) => (o, E, Halt k)
+  end.
+Proof. reflexivity. Qed.
+Lemma rexec_expr F E c : rexec_stmt RP (S F) E (GExpr c) =
+  match rcev_with (rcall RP F E) E c with
+  | (o, CV _) => (o, E, Go)
+  | (o, CHalt k) => (o, E, Halt k)
+  end.
+Proof. reflexivity. Qed.
+Lemma rexec_ret F E c : rexec_stmt RP (S F) E (GReturn (Some c)) =
+  match rcev_with (rcall RP F E) E c with
+  | (o, CV (Some v)) => (o, E, Ret (Some v))
+  | (o, CV None) => (o, E, Halt Stuck)
+  | (o, CHalt k) => (o, E, Halt k)
+  end.
+Proof. reflexivity. Qed.
+Ltac runf := cbn [tree_of_stmt];
+  first [rewrite rexec_let | rewrite rexec_assign | rewrite rexec_print | rewrite rexec_expr | rewrite rexec_ret].
 
 Lemma reach_nil E : reach_b E GNil ([], E, Go).
 Proof. exists 1%nat. intros F' H. fuelS F'. reflexivity. Qed.
@@ -167,107 +448,109 @@ Proof.
   cbn [rexec_block]. rewrite H1 by lia. cbn [xseq]. destruct g1; congruence.
 Qed.
 
-(* ---------------------------------------------------------------- expressions inside statements *)
-
-Definition okg (g : sig) : Prop := g <> Halt OutOfFuel /\ g <> Halt Unspec /\ g <> Halt Stuck.
-
-Lemma okg_halt r : okg (Halt (stop_of r)) -> defined r /\ (forall v, r <> EV v).
-Proof.
-  intros (H1 & H2 & H3). destruct r; cbn in *; try congruence.
-  split; [split; congruence | intros; congruence].
-Qed.
-
-(* what the source evaluation of an expression implies for the denoted Rust term *)
-Lemma sem_val sc E e v : eval E e = EV v -> reval E (tree_of (lower_expr sc e)) = RV v.
-Proof. intros H. rewrite tree_sem; rewrite H; [reflexivity|split; congruence]. Qed.
-
-Lemma true_lit_eval sc c E : is_true_lit (lower_expr sc c) = true -> eval E c = EV (VB true).
-Proof.
-  induction c; cbn; intros H; try discriminate H.
-  - destruct b; [reflexivity|discriminate H].
-  - now apply IHc.
-Qed.
-
-Lemma not_true_lit_tree e : is_true_lit e = false ->
-  forall b', tree_of_stmt (GWhile e b') = GWhile (tree_of e) (tree_of_block b').
-Proof. intros H b'. cbn [tree_of_stmt]. now rewrite H. Qed.
-
 (* ---------------------------------------------------------------- the simulation *)
 
 Definition SimS (f : nat) : Prop := forall E s sc mv s' sc' mv' o E' g,
-  exec_stmt f E s = (o, E', g) -> okg g -> lower_stmt sc mv s = LOk (s', sc', mv') -> dom_ok sc E ->
+  exec_stmt P f E s = (o, E', g) -> okg g -> lower_stmt P sc mv s = LOk (s', sc', mv') -> dom_ok sc E ->
+  calls_wf_stmt P s = true ->
   reach_s E (tree_of_stmt s') (o, E', g) /\ ext E E' /\ (g = Go -> dom_ok sc' E').
 
 Definition SimB (f : nat) : Prop := forall E b sc mv b' sc' mv' o E' g,
-  exec_block f E b = (o, E', g) -> okg g -> lower_block sc mv b = LOk (b', sc', mv') -> dom_ok sc E ->
+  exec_block P f E b = (o, E', g) -> okg g -> lower_block P sc mv b = LOk (b', sc', mv') -> dom_ok sc E ->
+  calls_wf_block P b = true ->
   reach_b E (tree_of_block b') (o, E', g) /\ ext E E' /\ (g = Go -> dom_ok sc' E').
 
 Definition SimE (f : nat) : Prop := forall E el sc mv el' mv' o E' g,
-  exec_els f E el = (o, E', g) -> okg g -> lower_els sc mv el = LOk (el', mv') -> dom_ok sc E ->
+  exec_els P f E el = (o, E', g) -> okg g -> lower_els P sc mv el = LOk (el', mv') -> dom_ok sc E ->
+  calls_wf_els P el = true ->
   reach_e E (tels el') (o, E', g) /\ ext E E' /\ dom_ok sc E'.
 
 Definition SimR (f : nat) : Prop := forall E x cur stp step b sc mv b' sc' mv' o E' g,
-  exec_range f E x cur stp step b = (o, E', g) -> okg g ->
-  lower_block ([(x, TyInt)] :: sc) mv b = LOk (b', sc', mv') -> dom_ok sc E ->
+  exec_range P f E x cur stp step b = (o, E', g) -> okg g ->
+  lower_block P ([(x, TyInt)] :: sc) mv b = LOk (b', sc', mv') -> dom_ok sc E ->
+  calls_wf_block P b = true ->
   reach_r E x cur stp step (tree_of_block b') (o, E', g) /\ ext E E' /\ dom_ok sc E'.
 
-Lemma range_done_refl z s : range_done z z s = true.
-Proof. unfold range_done. destruct (0 <? s); apply Z.leb_refl. Qed.
+(* calls: the emitted call (arguments in declaration order) reaches the result of the source call
+   (arguments evaluated in written order, bound by name) *)
+Definition SimC (f : nat) : Prop := forall E sc fn pos kw o r,
+  call P f E fn pos kw = (o, r) -> okc r -> call_wf P (CCall fn pos kw) = true ->
+  reach_c E (tree_of_c (lower_c P sc (CCall fn pos kw))) (o, r).
 
-Lemma okg_go : okg Go. Proof. repeat split; discriminate. Qed.
-Lemma okg_brk : okg Brk. Proof. repeat split; discriminate. Qed.
+(* a call-level expression at a statement position *)
+Lemma cev_sim f E sc c o r :
+  SimC f -> cev_with (call P f E) E c = (o, r) -> okc r -> call_wf P c = true ->
+  reach_c E (tree_of_c (lower_c P sc c)) (o, r).
+Proof.
+  intros IH Hx Hk Hw. destruct c as [e|fn pos kw].
+  - cbn [cev_with] in Hx. exists O. intros F' _. cbn [lower_c tree_of_c rcev_with].
+    destruct (eval E e) as [v| | |] eqn:Ee; injection Hx as <- <-.
+    + now rewrite (sem_val sc E e v Ee).
+    + now rewrite (sem_zd sc E e Ee).
+    + destruct Hk as (_ & H & _). cbn in H. congruence.
+    + destruct Hk as (_ & _ & H). cbn in H. congruence.
+  - cbn [cev_with] in Hx. eapply IH; eauto.
+Qed.
 
 (* a block run in its own scope, on both sides *)
 Lemma scoped_block f E b sc0 mv b' sc' mv' o E' g :
-  SimB f -> in_scope (length E) (exec_block f E b) = (o, E', g) -> okg g ->
-  lower_block sc0 mv b = LOk (b', sc', mv') -> dom_ok sc0 E ->
-  (exists F, forall F', (F <= F')%nat -> in_scope (length E) (rexec_block F' E (tree_of_block b')) = (o, E', g)) /\
+  SimB f -> in_scope (length E) (exec_block P f E b) = (o, E', g) -> okg g ->
+  lower_block P sc0 mv b = LOk (b', sc', mv') -> dom_ok sc0 E -> calls_wf_block P b = true ->
+  (exists F, forall F', (F <= F')%nat -> in_scope (length E) (rexec_block RP F' E (tree_of_block b')) = (o, E', g)) /\
   ext E E' /\ (forall sc, dom_ok sc E -> dom_ok sc E').
 Proof.
-  intros IH Hx Hk Hl Hd.
-  destruct (exec_block f E b) as [[o1 E1] g1] eqn:Hb. cbn [in_scope] in Hx. injection Hx as <- <- <-.
-  destruct (IH _ _ _ _ _ _ _ _ _ _ Hb Hk Hl Hd) as ([F HF] & Hext & _).
+  intros IH Hx Hk Hl Hd Hw.
+  destruct (exec_block P f E b) as [[o1 E1] g1] eqn:Hb. cbn [in_scope] in Hx. injection Hx as <- <- <-.
+  destruct (IH _ _ _ _ _ _ _ _ _ _ Hb Hk Hl Hd Hw) as ([F HF] & Hext & _).
   split; [|split].
   - exists F. intros F' HF'. rewrite HF by lia. reflexivity.
   - now apply ext_restore.
   - intros sc Hsc. now apply dom_restore.
 Qed.
 
-Lemma sim_step f : SimS f /\ SimB f /\ SimE f /\ SimR f -> SimS (S f) /\ SimB (S f) /\ SimE (S f) /\ SimR (S f).
+Ltac bad_halt Hx Hk :=
+  injection Hx as <- <- <-;
+  first [ destruct Hk as (_ & H & _); cbn in H; congruence | destruct Hk as (_ & _ & H); cbn in H; congruence ].
+
+Lemma sim_step f :
+  SimS f /\ SimB f /\ SimE f /\ SimR f /\ SimC f ->
+  SimS (S f) /\ SimB (S f) /\ SimE (S f) /\ SimR (S f) /\ SimC (S f).
 Proof.
-  intros (IHS & IHB & IHE & IHR). split; [|split; [|split]].
+  intros (IHS & IHB & IHE & IHR & IHC). split; [|split; [|split; [|split]]].
   - (* statements *)
-    unfold SimS. intros E s sc mv s' sc' mv' o E' g Hx Hk Hl Hd.
-    destruct s as [k x ann e|co x e|c th el|c b|x r b|e| | |]; cbn [exec_stmt] in Hx; cbn [lower_stmt] in Hl.
+    unfold SimS. intros E s sc mv s' sc' mv' o E' g Hx Hk Hl Hd Hw.
+    destruct s as [k x ann c|co x e|c th el|c b|x r b|c|c|[c|]| | |];
+      first [rewrite exec_assign in Hx | rewrite exec_print in Hx | rewrite exec_sexpr in Hx | rewrite exec_ret in Hx
+            | cbn [exec_stmt] in Hx];
+      cbn [lower_stmt] in Hl; cbn [calls_wf_stmt] in Hw.
     + (* assignment *)
-      destruct (eval E e) as [v| | |] eqn:Ev.
-      * assert (Hrv := sem_val sc E e v Ev).
-        destruct k.
-        -- (* inferred *)
-           rewrite (dom_exists sc E x Hd) in Hl.
+      destruct (cev_with (call P f E) E c) as [oc rc] eqn:Hc. cbv beta iota in Hx.
+      assert (Hkc : okc rc).
+      { destruct rc as [[v|]|k0]; cbv beta iota in Hx; try (repeat split; discriminate).
+        destruct k; injection Hx as <- <- <-; destruct Hk as (H1 & H2 & H3); repeat split; congruence. }
+      destruct (cev_sim f E sc c oc rc IHC Hc Hkc Hw) as [F HF].
+      destruct rc as [[v|]|k0]; cbv beta iota in Hx.
+      * destruct k.
+        -- rewrite (dom_exists sc E x Hd) in Hl.
            destruct (bound x E) eqn:Hb.
            ++ destruct (mem x mv); [|discriminate]. injection Hl as <- <- <-. injection Hx as <- <- <-.
               split; [|split; [apply ext_update | intros _; now apply dom_update]].
-              exists 1%nat. intros F' HF. fuelS F'. cbn [tree_of_stmt rexec_stmt]. rewrite Hrv, Hb. reflexivity.
+              exists (S F). intros F' HF'. fuelS F'. runf. rewrite HF by lia. now rewrite Hb.
            ++ injection Hl as <- <- <-. injection Hx as <- <- <-.
               split; [|split; [apply ext_bind | intros _; now apply dom_insert]].
-              exists 1%nat. intros F' HF. fuelS F'. cbn [tree_of_stmt rexec_stmt]. rewrite Hrv. reflexivity.
+              exists (S F). intros F' HF'. fuelS F'. runf. now rewrite HF by lia.
         -- injection Hl as <- <- <-. injection Hx as <- <- <-.
            split; [|split; [apply ext_bind | intros _; now apply dom_insert]].
-           exists 1%nat. intros F' HF. fuelS F'. cbn [tree_of_stmt rexec_stmt]. rewrite Hrv. reflexivity.
+           exists (S F). intros F' HF'. fuelS F'. runf. now rewrite HF by lia.
         -- injection Hl as <- <- <-. injection Hx as <- <- <-.
            split; [|split; [apply ext_bind | intros _; now apply dom_insert]].
-           exists 1%nat. intros F' HF. fuelS F'. cbn [tree_of_stmt rexec_stmt]. rewrite Hrv. reflexivity.
-      * (* ZeroDivisionError while evaluating *)
-        injection Hx as <- <- <-.
-        assert (Hr : reval E (tree_of (lower_expr sc e)) = RZeroDiv).
-        { rewrite tree_sem; rewrite Ev; [reflexivity|split; congruence]. }
+           exists (S F). intros F' HF'. fuelS F'. runf. now rewrite HF by lia.
+      * injection Hx as <- <- <-. destruct Hk as (_ & _ & H). congruence.
+      * injection Hx as <- <- <-.
         split; [|split; [apply ext_refl | discriminate]].
-        exists 1%nat. intros F' HF. fuelS F'.
+        exists (S F). intros F' HF'. fuelS F'.
         destruct k; [destruct (sexists x sc); [destruct (mem x mv); [|discriminate]|]|..];
-        injection Hl as <- <- <-; cbn [tree_of_stmt rexec_stmt]; rewrite Hr; reflexivity.
-      * injection Hx as <- <- <-. destruct Hk as (_ & H & _). cbn in H. congruence.
-      * injection Hx as <- <- <-. destruct Hk as (_ & _ & H). cbn in H. congruence.
+        injection Hl as <- <- <-; runf; now rewrite HF by lia.
     + (* compound assignment *)
       injection Hl as <- <- <-.
       change (IBin (binop_of_cop co) (var_ty x sc) (cty sc e) (IVar x) (lower_expr sc e))
@@ -279,98 +562,83 @@ Proof.
         { unfold bound. subst ee. cbn [eval] in Ev.
           destruct (lookup x E); [reflexivity|]. destruct (binop_of_cop co); discriminate. }
         split; [|split; [apply ext_update | intros _; now apply dom_update]].
-        exists 1%nat. intros F' HF. fuelS F'. cbn [tree_of_stmt rexec_stmt].
+        exists 1%nat. intros F' HF. fuelS F'. runf. cbn [tree_of_c rcev_with].
         rewrite (sem_val sc E ee v Ev), Hb. reflexivity.
       * injection Hx as <- <- <-.
-        assert (Hr : reval E (tree_of (lower_expr sc ee)) = RZeroDiv).
-        { rewrite tree_sem; rewrite Ev; [reflexivity|split; congruence]. }
         split; [|split; [apply ext_refl | discriminate]].
-        exists 1%nat. intros F' HF. fuelS F'. cbn [tree_of_stmt rexec_stmt]. rewrite Hr. reflexivity.
-      * injection Hx as <- <- <-. destruct Hk as (_ & H & _). cbn in H. congruence.
-      * injection Hx as <- <- <-. destruct Hk as (_ & _ & H). cbn in H. congruence.
+        exists 1%nat. intros F' HF. fuelS F'. runf. cbn [tree_of_c rcev_with].
+        rewrite (sem_zd sc E ee Ev). reflexivity.
+      * bad_halt Hx Hk.
+      * bad_halt Hx Hk.
     + (* if *)
-      destruct (lower_els sc mv el) as [[el' mv1]|] eqn:Hle; [|discriminate].
-      destruct (lower_block ([] :: sc) mv1 th) as [[[th' sct] mv2]|] eqn:Hlt; [|discriminate].
+      apply andb_prop in Hw. destruct Hw as [Hwt Hwe].
+      destruct (lower_els P sc mv el) as [[el' mv1]|] eqn:Hle; [|discriminate].
+      destruct (lower_block P ([] :: sc) mv1 th) as [[[th' sct] mv2]|] eqn:Hlt; [|discriminate].
       injection Hl as <- <- <-.
       destruct (eval E c) as [[z|[|]]| | |] eqn:Ec.
-      * injection Hx as <- <- <-. destruct Hk as (_ & _ & H). cbn in H. congruence.
-      * (* true *)
-        destruct (scoped_block f E th ([] :: sc) mv1 th' sct mv2 o E' g IHB Hx Hk Hlt (dom_push _ _ Hd))
+      * bad_halt Hx Hk.
+      * destruct (scoped_block f E th ([] :: sc) mv1 th' sct mv2 o E' g IHB Hx Hk Hlt (dom_push _ _ Hd) Hwt)
           as ([F HF] & Hext & Hdom).
         split; [|split; [exact Hext | intros _; now apply Hdom]].
         exists (S F). intros F' HF'. fuelS F'. cbn [tree_of_stmt rexec_stmt].
         rewrite (sem_val sc E c _ Ec). rewrite HF by lia. reflexivity.
-      * (* false *)
-        destruct (IHE _ _ _ _ _ _ _ _ _ Hx Hk Hle Hd) as ([F HF] & Hext & Hdom).
+      * destruct (IHE _ _ _ _ _ _ _ _ _ Hx Hk Hle Hd Hwe) as ([F HF] & Hext & Hdom).
         split; [|split; [exact Hext | intros _; exact Hdom]].
         exists (S F). intros F' HF'. fuelS F'. cbn [tree_of_stmt rexec_stmt].
         rewrite (sem_val sc E c _ Ec). specialize (HF F' ltac:(lia)).
         destruct el'; cbn [tels relse] in HF; exact HF.
       * injection Hx as <- <- <-.
-        assert (Hr : reval E (tree_of (lower_expr sc c)) = RZeroDiv).
-        { rewrite tree_sem; rewrite Ec; [reflexivity|split; congruence]. }
         split; [|split; [apply ext_refl | discriminate]].
-        exists 1%nat. intros F' HF. fuelS F'. cbn [tree_of_stmt rexec_stmt]. rewrite Hr. reflexivity.
-      * injection Hx as <- <- <-. destruct Hk as (_ & H & _). cbn in H. congruence.
-      * injection Hx as <- <- <-. destruct Hk as (_ & _ & H). cbn in H. congruence.
+        exists 1%nat. intros F' HF. fuelS F'. cbn [tree_of_stmt rexec_stmt]. rewrite (sem_zd sc E c Ec). reflexivity.
+      * bad_halt Hx Hk.
+      * bad_halt Hx Hk.
     + (* while *)
-      destruct (lower_block ([] :: sc) mv b) as [[[b' scb] mv1]|] eqn:Hlb; [|discriminate].
+      destruct (lower_block P ([] :: sc) mv b) as [[[b' scb] mv1]|] eqn:Hlb; [|discriminate].
       injection Hl as <- <- <-.
-      assert (Hlw : lower_stmt sc mv (SWhile c b) = LOk (GWhile (lower_expr ([] :: sc) c) b', sc, mv1)).
+      assert (Hlw : lower_stmt P sc mv (SWhile c b) = LOk (GWhile (lower_expr ([] :: sc) c) b', sc, mv1)).
       { cbn [lower_stmt]. now rewrite Hlb. }
       destruct (eval E c) as [[z|[|]]| | |] eqn:Ec.
-      * injection Hx as <- <- <-. destruct Hk as (_ & _ & H). cbn in H. congruence.
+      * bad_halt Hx Hk.
       * (* condition true: run the body, then maybe again *)
-        destruct (in_scope (length E) (exec_block f E b)) as [[o1 E1] g1] eqn:Hb.
+        destruct (in_scope (length E) (exec_block P f E b)) as [[o1 E1] g1] eqn:Hb.
         assert (Hk1 : okg g1).
-        { destruct g1 as [| | |k1]; try (repeat split; discriminate).
+        { destruct g1 as [| | |rv|k1]; try (repeat split; discriminate).
           injection Hx as <- <- <-. exact Hk. }
-        destruct (scoped_block f E b ([] :: sc) mv b' scb mv1 o1 E1 g1 IHB Hb Hk1 Hlb (dom_push _ _ Hd))
+        destruct (scoped_block f E b ([] :: sc) mv b' scb mv1 o1 E1 g1 IHB Hb Hk1 Hlb (dom_push _ _ Hd) Hw)
           as ([F HF] & Hext & Hdom).
-        assert (Hcont : forall o2 E2 g2, exec_stmt f E1 (SWhile c b) = (o2, E2, g2) -> okg g2 ->
+        assert (Hcont : forall o2 E2 g2, exec_stmt P f E1 (SWhile c b) = (o2, E2, g2) -> okg g2 ->
                   reach_s E1 (tree_of_stmt (GWhile (lower_expr ([] :: sc) c) b')) (o2, E2, g2) /\ ext E1 E2 /\ (g2 = Go -> dom_ok sc E2)).
-        { intros o2 E2 g2 H2 Hk2. exact (IHS _ _ _ _ _ _ _ _ _ _ H2 Hk2 Hlw (Hdom _ Hd)). }
-        destruct (is_true_lit (lower_expr ([] :: sc) c)) eqn:Htl.
-        -- (* `while true` is emitted as `loop` *)
-           destruct g1 as [| | |k1].
-           ++ destruct (exec_stmt f E1 (SWhile c b)) as [[o2 E2] g2] eqn:H2. injection Hx as <- <- <-.
-              destruct (Hcont _ _ _ eq_refl Hk) as ([F2 HF2] & Hext2 & Hdom2).
-              split; [|split; [eapply ext_trans; eauto | exact Hdom2]].
-              exists (S (Nat.max F F2)). intros F' HF'. fuelS F'.
-              cbn [tree_of_stmt] in *. rewrite Htl in *. cbn [rexec_stmt]. rewrite HF by lia. rewrite HF2 by lia. reflexivity.
-           ++ injection Hx as <- <- <-.
-              split; [|split; [exact Hext | intros _; now apply Hdom]].
-              exists (S F). intros F' HF'. fuelS F'.
-              cbn [tree_of_stmt]. rewrite Htl. cbn [rexec_stmt]. rewrite HF by lia. reflexivity.
-           ++ destruct (exec_stmt f E1 (SWhile c b)) as [[o2 E2] g2] eqn:H2. injection Hx as <- <- <-.
-              destruct (Hcont _ _ _ eq_refl Hk) as ([F2 HF2] & Hext2 & Hdom2).
-              split; [|split; [eapply ext_trans; eauto | exact Hdom2]].
-              exists (S (Nat.max F F2)). intros F' HF'. fuelS F'.
-              cbn [tree_of_stmt] in *. rewrite Htl in *. cbn [rexec_stmt]. rewrite HF by lia. rewrite HF2 by lia. reflexivity.
-           ++ injection Hx as <- <- <-.
-              split; [|split; [exact Hext | discriminate]].
-              exists (S F). intros F' HF'. fuelS F'.
-              cbn [tree_of_stmt]. rewrite Htl. cbn [rexec_stmt]. rewrite HF by lia. reflexivity.
-        -- assert (Hc : reval E (tree_of (lower_expr ([] :: sc) c)) = RV (VB true)) by (now apply sem_val).
-           destruct g1 as [| | |k1].
-           ++ destruct (exec_stmt f E1 (SWhile c b)) as [[o2 E2] g2] eqn:H2. injection Hx as <- <- <-.
-              destruct (Hcont _ _ _ eq_refl Hk) as ([F2 HF2] & Hext2 & Hdom2).
-              split; [|split; [eapply ext_trans; eauto | exact Hdom2]].
-              exists (S (Nat.max F F2)). intros F' HF'. fuelS F'.
-              cbn [tree_of_stmt] in *. rewrite Htl in *. cbn [rexec_stmt]. rewrite Hc. rewrite HF by lia. rewrite HF2 by lia. reflexivity.
-           ++ injection Hx as <- <- <-.
-              split; [|split; [exact Hext | intros _; now apply Hdom]].
-              exists (S F). intros F' HF'. fuelS F'.
-              cbn [tree_of_stmt]. rewrite Htl. cbn [rexec_stmt]. rewrite Hc. rewrite HF by lia. reflexivity.
-           ++ destruct (exec_stmt f E1 (SWhile c b)) as [[o2 E2] g2] eqn:H2. injection Hx as <- <- <-.
-              destruct (Hcont _ _ _ eq_refl Hk) as ([F2 HF2] & Hext2 & Hdom2).
-              split; [|split; [eapply ext_trans; eauto | exact Hdom2]].
-              exists (S (Nat.max F F2)). intros F' HF'. fuelS F'.
-              cbn [tree_of_stmt] in *. rewrite Htl in *. cbn [rexec_stmt]. rewrite Hc. rewrite HF by lia. rewrite HF2 by lia. reflexivity.
-           ++ injection Hx as <- <- <-.
-              split; [|split; [exact Hext | discriminate]].
-              exists (S F). intros F' HF'. fuelS F'.
-              cbn [tree_of_stmt]. rewrite Htl. cbn [rexec_stmt]. rewrite Hc. rewrite HF by lia. reflexivity.
+        { intros o2 E2 g2 H2 Hk2. exact (IHS _ _ _ _ _ _ _ _ _ _ H2 Hk2 Hlw (Hdom _ Hd) Hw). }
+        assert (Hc : is_true_lit (lower_expr ([] :: sc) c) = false ->
+                     reval E (tree_of (lower_expr ([] :: sc) c)) = RV (VB true)) by (intros _; now apply sem_val).
+        destruct g1 as [| | |rv|k1].
+        -- destruct (exec_stmt P f E1 (SWhile c b)) as [[o2 E2] g2] eqn:H2. injection Hx as <- <- <-.
+           destruct (Hcont _ _ _ eq_refl Hk) as ([F2 HF2] & Hext2 & Hdom2).
+           split; [|split; [eapply ext_trans; eauto | exact Hdom2]].
+           exists (S (Nat.max F F2)). intros F' HF'. fuelS F'.
+           cbn [tree_of_stmt] in *. destruct (is_true_lit (lower_expr ([] :: sc) c)) eqn:Htl;
+           cbn [rexec_stmt]; rewrite ?Hc by reflexivity; rewrite HF by lia; rewrite HF2 by lia; reflexivity.
+        -- injection Hx as <- <- <-.
+           split; [|split; [exact Hext | intros _; now apply Hdom]].
+           exists (S F). intros F' HF'. fuelS F'.
+           cbn [tree_of_stmt]. destruct (is_true_lit (lower_expr ([] :: sc) c)) eqn:Htl;
+           cbn [rexec_stmt]; rewrite ?Hc by reflexivity; rewrite HF by lia; reflexivity.
+        -- destruct (exec_stmt P f E1 (SWhile c b)) as [[o2 E2] g2] eqn:H2. injection Hx as <- <- <-.
+           destruct (Hcont _ _ _ eq_refl Hk) as ([F2 HF2] & Hext2 & Hdom2).
+           split; [|split; [eapply ext_trans; eauto | exact Hdom2]].
+           exists (S (Nat.max F F2)). intros F' HF'. fuelS F'.
+           cbn [tree_of_stmt] in *. destruct (is_true_lit (lower_expr ([] :: sc) c)) eqn:Htl;
+           cbn [rexec_stmt]; rewrite ?Hc by reflexivity; rewrite HF by lia; rewrite HF2 by lia; reflexivity.
+        -- injection Hx as <- <- <-.
+           split; [|split; [exact Hext | discriminate]].
+           exists (S F). intros F' HF'. fuelS F'.
+           cbn [tree_of_stmt]. destruct (is_true_lit (lower_expr ([] :: sc) c)) eqn:Htl;
+           cbn [rexec_stmt]; rewrite ?Hc by reflexivity; rewrite HF by lia; reflexivity.
+        -- injection Hx as <- <- <-.
+           split; [|split; [exact Hext | discriminate]].
+           exists (S F). intros F' HF'. fuelS F'.
+           cbn [tree_of_stmt]. destruct (is_true_lit (lower_expr ([] :: sc) c)) eqn:Htl;
+           cbn [rexec_stmt]; rewrite ?Hc by reflexivity; rewrite HF by lia; reflexivity.
       * (* condition false *)
         injection Hx as <- <- <-.
         destruct (is_true_lit (lower_expr ([] :: sc) c)) eqn:Htl.
@@ -381,17 +649,15 @@ Proof.
       * injection Hx as <- <- <-.
         destruct (is_true_lit (lower_expr ([] :: sc) c)) eqn:Htl.
         { rewrite (true_lit_eval _ _ E Htl) in Ec. discriminate. }
-        assert (Hr : reval E (tree_of (lower_expr ([] :: sc) c)) = RZeroDiv).
-        { rewrite tree_sem; rewrite Ec; [reflexivity|split; congruence]. }
         split; [|split; [apply ext_refl | discriminate]].
-        exists 1%nat. intros F' HF. fuelS F'. cbn [tree_of_stmt]. rewrite Htl. cbn [rexec_stmt]. rewrite Hr. reflexivity.
-      * injection Hx as <- <- <-. destruct Hk as (_ & H & _). cbn in H. congruence.
-      * injection Hx as <- <- <-. destruct Hk as (_ & _ & H). cbn in H. congruence.
+        exists 1%nat. intros F' HF. fuelS F'. cbn [tree_of_stmt]. rewrite Htl. cbn [rexec_stmt].
+        rewrite (sem_zd _ E c Ec). reflexivity.
+      * bad_halt Hx Hk.
+      * bad_halt Hx Hk.
     + (* for x in range(...) *)
       destruct (lower_rargs sc r) as [[ia iz] ist] eqn:Hlr.
-      destruct (lower_block ([(x, TyInt)] :: sc) mv b) as [[[b' scb] mv1]|] eqn:Hlb; [|discriminate].
+      destruct (lower_block P ([(x, TyInt)] :: sc) mv b) as [[[b' scb] mv1]|] eqn:Hlb; [|discriminate].
       injection Hl as <- <- <-.
-      (* the three arguments, evaluated left to right on both sides *)
       assert (Hargs : exists ea ez es,
                 eval_rargs E r = (eval E ea, eval E ez, eval E es) /\
                 tree_of ia = tree_of (lower_expr sc ea) /\ tree_of iz = tree_of (lower_expr sc ez) /\
@@ -414,48 +680,75 @@ Proof.
                  split; [|split; [apply ext_refl | discriminate]].
                  exists 1%nat. intros F' HF. fuelS F'. cbn [tree_of_stmt rexec_stmt].
                  rewrite Ha, Hz, (sem_val sc E ea _ Ea), (sem_val sc E ez _ Ez), (Hcast _ eq_refl), Hz0. reflexivity.
-              ** destruct (IHR _ _ _ _ _ _ _ _ _ _ _ _ _ _ Hx Hk Hlb Hd) as ([F HF] & Hext & Hdom).
+              ** destruct (IHR _ _ _ _ _ _ _ _ _ _ _ _ _ _ Hx Hk Hlb Hd Hw) as ([F HF] & Hext & Hdom).
                  split; [|split; [exact Hext | intros _; exact Hdom]].
                  exists (S F). intros F' HF'. fuelS F'. cbn [tree_of_stmt rexec_stmt].
                  rewrite Ha, Hz, (sem_val sc E ea _ Ea), (sem_val sc E ez _ Ez), (Hcast _ eq_refl), Hz0.
                  now apply HF; lia.
-           ++ injection Hx as <- <- <-. destruct Hk as (_ & _ & H). cbn in H. congruence.
+           ++ bad_halt Hx Hk.
            ++ injection Hx as <- <- <-.
               split; [|split; [apply ext_refl | discriminate]].
               exists 1%nat. intros F' HF. fuelS F'. cbn [tree_of_stmt rexec_stmt].
               rewrite Ha, Hz, (sem_val sc E ea _ Ea), (sem_val sc E ez _ Ez).
-              rewrite (Hcasth RZeroDiv); [reflexivity| |discriminate].
-              rewrite tree_sem; rewrite Es; [reflexivity|split; congruence].
-           ++ injection Hx as <- <- <-. destruct Hk as (_ & H & _). cbn in H. congruence.
-           ++ injection Hx as <- <- <-. destruct Hk as (_ & _ & H). cbn in H. congruence.
-        -- injection Hx as <- <- <-. destruct Hk as (_ & _ & H). cbn in H. congruence.
+              rewrite (Hcasth RZeroDiv); [reflexivity| |discriminate]. now apply sem_zd.
+           ++ bad_halt Hx Hk.
+           ++ bad_halt Hx Hk.
+        -- bad_halt Hx Hk.
         -- injection Hx as <- <- <-.
            split; [|split; [apply ext_refl | discriminate]].
            exists 1%nat. intros F' HF. fuelS F'. cbn [tree_of_stmt rexec_stmt].
-           rewrite Ha, Hz, (sem_val sc E ea _ Ea).
-           replace (reval E (tree_of (lower_expr sc ez))) with RZeroDiv; [reflexivity|].
-           rewrite tree_sem; rewrite Ez; [reflexivity|split; congruence].
-        -- injection Hx as <- <- <-. destruct Hk as (_ & H & _). cbn in H. congruence.
-        -- injection Hx as <- <- <-. destruct Hk as (_ & _ & H). cbn in H. congruence.
-      * injection Hx as <- <- <-. destruct Hk as (_ & _ & H). cbn in H. congruence.
+           rewrite Ha, Hz, (sem_val sc E ea _ Ea), (sem_zd sc E ez Ez). reflexivity.
+        -- bad_halt Hx Hk.
+        -- bad_halt Hx Hk.
+      * bad_halt Hx Hk.
       * injection Hx as <- <- <-.
         split; [|split; [apply ext_refl | discriminate]].
         exists 1%nat. intros F' HF. fuelS F'. cbn [tree_of_stmt rexec_stmt].
-        rewrite Ha. replace (reval E (tree_of (lower_expr sc ea))) with RZeroDiv; [reflexivity|].
-        rewrite tree_sem; rewrite Ea; [reflexivity|split; congruence].
-      * injection Hx as <- <- <-. destruct Hk as (_ & H & _). cbn in H. congruence.
-      * injection Hx as <- <- <-. destruct Hk as (_ & _ & H). cbn in H. congruence.
+        rewrite Ha, (sem_zd sc E ea Ea). reflexivity.
+      * bad_halt Hx Hk.
+      * bad_halt Hx Hk.
     + (* println *)
       injection Hl as <- <- <-.
-      destruct (eval E e) as [v| | |] eqn:Ev; injection Hx as <- <- <-.
+      destruct (cev_with (call P f E) E c) as [oc rc] eqn:Hc. cbv beta iota in Hx.
+      assert (Hkc : okc rc).
+      { destruct rc as [[v|]|k0]; cbv beta iota in Hx; try (repeat split; discriminate).
+        injection Hx as <- <- <-; destruct Hk as (H1 & H2 & H3); repeat split; congruence. }
+      destruct (cev_sim f E sc c oc rc IHC Hc Hkc Hw) as [F HF].
+      destruct rc as [[v|]|k0]; cbv beta iota in Hx; injection Hx as <- <- <-.
       * split; [|split; [apply ext_refl | intros _; exact Hd]].
-        exists 1%nat. intros F' HF. fuelS F'. cbn [tree_of_stmt rexec_stmt]. rewrite (sem_val sc E e v Ev). reflexivity.
+        exists (S F). intros F' HF'. fuelS F'. runf. now rewrite HF by lia.
+      * destruct Hk as (_ & _ & H). congruence.
       * split; [|split; [apply ext_refl | discriminate]].
-        exists 1%nat. intros F' HF. fuelS F'. cbn [tree_of_stmt rexec_stmt].
-        replace (reval E (tree_of (lower_expr sc e))) with RZeroDiv; [reflexivity|].
-        rewrite tree_sem; rewrite Ev; [reflexivity|split; congruence].
-      * destruct Hk as (_ & H & _). cbn in H. congruence.
-      * destruct Hk as (_ & _ & H). cbn in H. congruence.
+        exists (S F). intros F' HF'. fuelS F'. runf. now rewrite HF by lia.
+    + (* expression statement *)
+      injection Hl as <- <- <-.
+      destruct (cev_with (call P f E) E c) as [oc rc] eqn:Hc. cbv beta iota in Hx.
+      assert (Hkc : okc rc).
+      { destruct rc as [v|k0]; cbv beta iota in Hx; try (repeat split; discriminate).
+        injection Hx as <- <- <-; destruct Hk as (H1 & H2 & H3); repeat split; congruence. }
+      destruct (cev_sim f E sc c oc rc IHC Hc Hkc Hw) as [F HF].
+      destruct rc as [v|k0]; cbv beta iota in Hx; injection Hx as <- <- <-.
+      * split; [|split; [apply ext_refl | intros _; exact Hd]].
+        exists (S F). intros F' HF'. fuelS F'. runf. now rewrite HF by lia.
+      * split; [|split; [apply ext_refl | discriminate]].
+        exists (S F). intros F' HF'. fuelS F'. runf. now rewrite HF by lia.
+    + (* return e *)
+      injection Hl as <- <- <-.
+      destruct (cev_with (call P f E) E c) as [oc rc] eqn:Hc. cbv beta iota in Hx.
+      assert (Hkc : okc rc).
+      { destruct rc as [[v|]|k0]; cbv beta iota in Hx; try (repeat split; discriminate).
+        injection Hx as <- <- <-; destruct Hk as (H1 & H2 & H3); repeat split; congruence. }
+      destruct (cev_sim f E sc c oc rc IHC Hc Hkc Hw) as [F HF].
+      destruct rc as [[v|]|k0]; cbv beta iota in Hx; injection Hx as <- <- <-.
+      * split; [|split; [apply ext_refl | discriminate]].
+        exists (S F). intros F' HF'. fuelS F'. runf. now rewrite HF by lia.
+      * destruct Hk as (_ & _ & H). congruence.
+      * split; [|split; [apply ext_refl | discriminate]].
+        exists (S F). intros F' HF'. fuelS F'. runf. now rewrite HF by lia.
+    + (* return *)
+      injection Hl as <- <- <-. injection Hx as <- <- <-.
+      split; [|split; [apply ext_refl | discriminate]].
+      exists 1%nat. intros F' HF. fuelS F'. reflexivity.
     + injection Hl as <- <- <-. injection Hx as <- <- <-.
       split; [|split; [apply ext_refl | intros _; exact Hd]].
       exists 1%nat. intros F' HF. fuelS F'. reflexivity.
@@ -466,59 +759,65 @@ Proof.
       split; [|split; [apply ext_refl | discriminate]].
       exists 1%nat. intros F' HF. fuelS F'. reflexivity.
   - (* blocks *)
-    unfold SimB. intros E b sc mv b' sc' mv' o E' g Hx Hk Hl Hd.
+    unfold SimB. intros E b sc mv b' sc' mv' o E' g Hx Hk Hl Hd Hw.
     destruct b as [|s r]; cbn [exec_block] in Hx; cbn [lower_block] in Hl.
     + injection Hl as <- <- <-. injection Hx as <- <- <-.
       split; [apply reach_nil | split; [apply ext_refl | intros _; exact Hd]].
-    + destruct (lower_stmt sc mv s) as [[[s1 sc1] mv1]|] eqn:Hls; [|discriminate].
-      destruct (lower_block sc1 mv1 r) as [[[r1 sc2] mv2]|] eqn:Hlr; [|discriminate].
+    + cbn [calls_wf_block] in Hw. apply andb_prop in Hw. destruct Hw as [Hws Hwr].
+      destruct (lower_stmt P sc mv s) as [[[s1 sc1] mv1]|] eqn:Hls; [|discriminate].
+      destruct (lower_block P sc1 mv1 r) as [[[r1 sc2] mv2]|] eqn:Hlr; [|discriminate].
       injection Hl as <- <- <-.
-      destruct (exec_stmt f E s) as [[o1 E1] g1] eqn:Hs. cbn [xseq] in Hx.
-      destruct g1 as [| | |k1].
-      * destruct (exec_block f E1 r) as [[o2 E2] g2] eqn:Hr. injection Hx as <- <- <-.
-        destruct (IHS _ _ _ _ _ _ _ _ _ _ Hs okg_go Hls Hd) as (R1 & X1 & D1).
-        destruct (IHB _ _ _ _ _ _ _ _ _ _ Hr Hk Hlr (D1 eq_refl)) as (R2 & X2 & D2).
+      destruct (exec_stmt P f E s) as [[o1 E1] g1] eqn:Hs. cbn [xseq] in Hx.
+      destruct g1 as [| | |rv|k1].
+      * destruct (exec_block P f E1 r) as [[o2 E2] g2] eqn:Hr. injection Hx as <- <- <-.
+        destruct (IHS _ _ _ _ _ _ _ _ _ _ Hs okg_go Hls Hd Hws) as (R1 & X1 & D1).
+        destruct (IHB _ _ _ _ _ _ _ _ _ _ Hr Hk Hlr (D1 eq_refl) Hwr) as (R2 & X2 & D2).
         split; [|split; [eapply ext_trans; eauto | exact D2]].
         cbn [tree_of_block]. eapply reach_cons_go; eauto.
       * injection Hx as <- <- <-.
-        destruct (IHS _ _ _ _ _ _ _ _ _ _ Hs Hk Hls Hd) as (R1 & X1 & D1).
+        destruct (IHS _ _ _ _ _ _ _ _ _ _ Hs Hk Hls Hd Hws) as (R1 & X1 & D1).
         split; [|split; [exact X1 | discriminate]].
         cbn [tree_of_block]. apply reach_cons_stop; [discriminate|exact R1].
       * injection Hx as <- <- <-.
-        destruct (IHS _ _ _ _ _ _ _ _ _ _ Hs Hk Hls Hd) as (R1 & X1 & D1).
+        destruct (IHS _ _ _ _ _ _ _ _ _ _ Hs Hk Hls Hd Hws) as (R1 & X1 & D1).
         split; [|split; [exact X1 | discriminate]].
         cbn [tree_of_block]. apply reach_cons_stop; [discriminate|exact R1].
       * injection Hx as <- <- <-.
-        destruct (IHS _ _ _ _ _ _ _ _ _ _ Hs Hk Hls Hd) as (R1 & X1 & D1).
+        destruct (IHS _ _ _ _ _ _ _ _ _ _ Hs Hk Hls Hd Hws) as (R1 & X1 & D1).
+        split; [|split; [exact X1 | discriminate]].
+        cbn [tree_of_block]. apply reach_cons_stop; [discriminate|exact R1].
+      * injection Hx as <- <- <-.
+        destruct (IHS _ _ _ _ _ _ _ _ _ _ Hs Hk Hls Hd Hws) as (R1 & X1 & D1).
         split; [|split; [exact X1 | discriminate]].
         cbn [tree_of_block]. apply reach_cons_stop; [discriminate|exact R1].
   - (* else / elif chains *)
-    unfold SimE. intros E el sc mv el' mv' o E' g Hx Hk Hl Hd.
-    destruct el as [|b|c b rest]; cbn [exec_els] in Hx; cbn [lower_els] in Hl.
+    unfold SimE. intros E el sc mv el' mv' o E' g Hx Hk Hl Hd Hw.
+    destruct el as [|b|c b rest]; cbn [exec_els] in Hx; cbn [lower_els] in Hl; cbn [calls_wf_els] in Hw.
     + injection Hl as <- <-. injection Hx as <- <- <-.
       split; [|split; [apply ext_refl | exact Hd]].
       exists O. intros F' _. reflexivity.
-    + destruct (lower_block ([] :: sc) mv b) as [[[b' scb] mv1]|] eqn:Hlb; [|discriminate].
+    + destruct (lower_block P ([] :: sc) mv b) as [[[b' scb] mv1]|] eqn:Hlb; [|discriminate].
       injection Hl as <- <-.
-      destruct (scoped_block f E b ([] :: sc) mv b' scb mv1 o E' g IHB Hx Hk Hlb (dom_push _ _ Hd))
+      destruct (scoped_block f E b ([] :: sc) mv b' scb mv1 o E' g IHB Hx Hk Hlb (dom_push _ _ Hd) Hw)
         as ([F HF] & Hext & Hdom).
       split; [|split; [exact Hext | now apply Hdom]].
       exists F. intros F' HF'. cbn [tels relse]. now apply HF.
-    + destruct (lower_els sc mv rest) as [[rest' mv1]|] eqn:Hlr; [|discriminate].
-      destruct (lower_block ([] :: sc) mv1 b) as [[[b' scb] mv2]|] eqn:Hlb; [|discriminate].
+    + apply andb_prop in Hw. destruct Hw as [Hwb Hwr].
+      destruct (lower_els P sc mv rest) as [[rest' mv1]|] eqn:Hlr; [|discriminate].
+      destruct (lower_block P ([] :: sc) mv1 b) as [[[b' scb] mv2]|] eqn:Hlb; [|discriminate].
       injection Hl as <- <-.
       (* on the Rust side: else { if c { b } else rest } *)
       destruct (eval E c) as [[z|[|]]| | |] eqn:Ec.
-      * injection Hx as <- <- <-. destruct Hk as (_ & _ & H). cbn in H. congruence.
+      * bad_halt Hx Hk.
       * assert (Hid : restore (length E) E' = E').
-        { destruct (exec_block f E b) as [[o0 E0] g0]. cbn [in_scope] in Hx. injection Hx as _ <- _. apply restore_idem. }
-        destruct (scoped_block f E b ([] :: sc) mv1 b' scb mv2 o E' g IHB Hx Hk Hlb (dom_push _ _ Hd))
+        { destruct (exec_block P f E b) as [[o0 E0] g0]. cbn [in_scope] in Hx. injection Hx as _ <- _. apply restore_idem. }
+        destruct (scoped_block f E b ([] :: sc) mv1 b' scb mv2 o E' g IHB Hx Hk Hlb (dom_push _ _ Hd) Hwb)
           as ([F HF] & Hext & Hdom).
         split; [|split; [exact Hext | now apply Hdom]].
         exists (S (S F)). intros F' HF'. fuelS F'. cbn [tels relse tree_of_block tree_of_stmt rexec_block]. fuelS F'. cbn [rexec_stmt].
         rewrite (sem_val sc E c _ Ec). rewrite HF by lia. cbn [xseq].
         destruct g; cbn [rexec_block in_scope]; rewrite ?app_nil_r, Hid; reflexivity.
-      * destruct (IHE _ _ _ _ _ _ _ _ _ Hx Hk Hlr Hd) as ([F HF] & Hext & Hdom).
+      * destruct (IHE _ _ _ _ _ _ _ _ _ Hx Hk Hlr Hd Hwr) as ([F HF] & Hext & Hdom).
         assert (Hlen : restore (length E) E' = E').
         { unfold restore.
           assert (length E' = length E).
@@ -533,37 +832,35 @@ Proof.
       * injection Hx as <- <- <-.
         split; [|split; [apply ext_refl | exact Hd]].
         exists 2%nat. intros F' HF. fuelS F'. cbn [tels relse tree_of_block tree_of_stmt rexec_block]. fuelS F'. cbn [rexec_stmt].
-        replace (reval E (tree_of (lower_expr sc c))) with RZeroDiv.
-        2:{ rewrite tree_sem; rewrite Ec; [reflexivity|split; congruence]. }
+        rewrite (sem_zd sc E c Ec).
         cbn [rstop_of xseq in_scope]. unfold restore. rewrite Nat.sub_diag. reflexivity.
-      * injection Hx as <- <- <-. destruct Hk as (_ & H & _). cbn in H. congruence.
-      * injection Hx as <- <- <-. destruct Hk as (_ & _ & H). cbn in H. congruence.
+      * bad_halt Hx Hk.
+      * bad_halt Hx Hk.
   - (* range iteration *)
-    unfold SimR. intros E x cur stp step b sc mv b' sc' mv' o E' g Hx Hk Hl Hd.
+    unfold SimR. intros E x cur stp step b sc mv b' sc' mv' o E' g Hx Hk Hl Hd Hw.
     cbn [exec_range] in Hx.
     destruct (range_done cur stp step) eqn:Hdone.
     + injection Hx as <- <- <-.
       split; [|split; [apply ext_refl | exact Hd]].
       exists 1%nat. intros F' HF. fuelS F'. cbn [rexec_range]. rewrite Hdone. reflexivity.
-    + destruct (in_scope (length E) (exec_block f ((x, VI cur) :: E) b)) as [[o1 E1] g1] eqn:Hb.
+    + destruct (in_scope (length E) (exec_block P f ((x, VI cur) :: E) b)) as [[o1 E1] g1] eqn:Hb.
       assert (Hk1 : okg g1).
-      { destruct g1 as [| | |k1]; try (repeat split; discriminate).
+      { destruct g1 as [| | |rv|k1]; try (repeat split; discriminate).
         injection Hx as <- <- <-. exact Hk. }
-      (* the body, in a scope that also holds the loop variable *)
       assert (Hbody : (exists F, forall F', (F <= F')%nat ->
-                         in_scope (length E) (rexec_block F' ((x, VI cur) :: E) (tree_of_block b')) = (o1, E1, g1)) /\
+                         in_scope (length E) (rexec_block RP F' ((x, VI cur) :: E) (tree_of_block b')) = (o1, E1, g1)) /\
                       ext E E1 /\ dom_ok sc E1).
-      { destruct (exec_block f ((x, VI cur) :: E) b) as [[o0 E0] g0] eqn:Hb0.
+      { destruct (exec_block P f ((x, VI cur) :: E) b) as [[o0 E0] g0] eqn:Hb0.
         cbn [in_scope] in Hb. injection Hb as <- <- <-.
-        destruct (IHB _ _ _ _ _ _ _ _ _ _ Hb0 Hk1 Hl (dom_push_var _ _ _ _ Hd)) as ([F HF] & Hext & _).
+        destruct (IHB _ _ _ _ _ _ _ _ _ _ Hb0 Hk1 Hl (dom_push_var _ _ _ _ Hd) Hw) as ([F HF] & Hext & _).
         apply ext_cons_inv in Hext.
         split; [|split; [now apply ext_restore | now apply dom_restore]].
         exists F. intros F' HF'. rewrite HF by lia. reflexivity. }
       destruct Hbody as ([F HF] & Hext & Hdom).
-      destruct g1 as [| | |k1].
+      destruct g1 as [| | |rv|k1].
       * destruct (in_i64b (cur + step)) eqn:Hin.
-        -- destruct (exec_range f E1 x (cur + step) stp step b) as [[o2 E2] g2] eqn:H2. injection Hx as <- <- <-.
-           destruct (IHR _ _ _ _ _ _ _ _ _ _ _ _ _ _ H2 Hk Hl Hdom) as ([F2 HF2] & Hext2 & Hdom2).
+        -- destruct (exec_range P f E1 x (cur + step) stp step b) as [[o2 E2] g2] eqn:H2. injection Hx as <- <- <-.
+           destruct (IHR _ _ _ _ _ _ _ _ _ _ _ _ _ _ H2 Hk Hl Hdom Hw) as ([F2 HF2] & Hext2 & Hdom2).
            split; [|split; [eapply ext_trans; eauto | exact Hdom2]].
            exists (S (Nat.max F F2)). intros F' HF'. fuelS F'. cbn [rexec_range]. rewrite Hdone.
            rewrite HF by lia. cbv zeta. rewrite Hin. rewrite HF2 by lia. reflexivity.
@@ -576,8 +873,8 @@ Proof.
         split; [|split; [exact Hext | exact Hdom]].
         exists (S F). intros F' HF'. fuelS F'. cbn [rexec_range]. rewrite Hdone. rewrite HF by lia. reflexivity.
       * destruct (in_i64b (cur + step)) eqn:Hin.
-        -- destruct (exec_range f E1 x (cur + step) stp step b) as [[o2 E2] g2] eqn:H2. injection Hx as <- <- <-.
-           destruct (IHR _ _ _ _ _ _ _ _ _ _ _ _ _ _ H2 Hk Hl Hdom) as ([F2 HF2] & Hext2 & Hdom2).
+        -- destruct (exec_range P f E1 x (cur + step) stp step b) as [[o2 E2] g2] eqn:H2. injection Hx as <- <- <-.
+           destruct (IHR _ _ _ _ _ _ _ _ _ _ _ _ _ _ H2 Hk Hl Hdom Hw) as ([F2 HF2] & Hext2 & Hdom2).
            split; [|split; [eapply ext_trans; eauto | exact Hdom2]].
            exists (S (Nat.max F F2)). intros F' HF'. fuelS F'. cbn [rexec_range]. rewrite Hdone.
            rewrite HF by lia. cbv zeta. rewrite Hin. rewrite HF2 by lia. reflexivity.
@@ -589,48 +886,143 @@ Proof.
       * injection Hx as <- <- <-.
         split; [|split; [exact Hext | exact Hdom]].
         exists (S F). intros F' HF'. fuelS F'. cbn [rexec_range]. rewrite Hdone. rewrite HF by lia. reflexivity.
+      * injection Hx as <- <- <-.
+        split; [|split; [exact Hext | exact Hdom]].
+        exists (S F). intros F' HF'. fuelS F'. cbn [rexec_range]. rewrite Hdone. rewrite HF by lia. reflexivity.
+  - (* calls *)
+    unfold SimC. intros E sc fn pos kw o r Hx Hk Hw.
+    cbn [call] in Hx. cbn [call_wf] in Hw.
+    destruct (find_fn fn P) as [d|] eqn:Hf; [|injection Hx as <- <-; destruct Hk as (_ & _ & H); congruence].
+    destruct (Htab fn d Hf) as (ib & mv0 & sc0 & mv1 & Hlb & Hrf & Hwb).
+    set (ws := pos ++ map snd kw) in *.
+    assert (Hlc : forall l, tree_of_c (ICallU fn l) = RUCall fn (map tree_of l)) by reflexivity.
+    destruct (select (fparams d) (length pos) 0 (map fst kw)) as [sel|] eqn:Hsel.
+    2:{ destruct (eval_args E ws) as [vs|r0] eqn:Ea.
+        - injection Hx as <- <-. destruct Hk as (_ & _ & H). congruence.
+        - injection Hx as <- <-.
+          assert (r0 = EZeroDiv) by (destruct Hk as (H1 & H2 & H3); destruct r0; cbn in *; congruence). subst r0.
+          (* without a usable signature the written order is emitted as is *)
+          exists 1%nat. intros F' HF. fuelS F'. cbn [lower_c]. fold ws. rewrite Hf, Hsel. rewrite Hlc.
+          cbn [rcev_with rcall]. rewrite Hrf, map_map.
+          pose proof (args_same_order sc E ws) as Ha. rewrite Ea in Ha. rewrite Ha. reflexivity. }
+    destruct (eval_args E ws) as [vs|r0] eqn:Ea.
+    + destruct (pick vs sel) as [bv|] eqn:Hbv; [|injection Hx as <- <-; destruct Hk as (_ & _ & H); congruence].
+      (* the emitted argument list *)
+      assert (Hlen : length (map (lower_expr sc) ws) = length vs).
+      { rewrite map_length. symmetry. eapply eval_args_length; eauto. }
+      destruct (pick_some_of_length vs (map (lower_expr sc) ws) sel bv (eq_sym Hlen) Hbv) as [l Hl].
+      assert (Hargs : reval_args E (map tree_of l) = inl bv).
+      { rewrite pick_map in Hl. destruct (pick ws sel) as [ws'|] eqn:Hws; [|discriminate].
+        injection Hl as <-. rewrite map_map.
+        apply args_values. eapply forall2_pick; [eapply eval_args_forall2; eauto|eauto|eauto]. }
+      assert (Hlb' : length (fparams d) = length bv).
+      { rewrite (pick_length _ _ _ Hbv). symmetry. eapply select_length; eauto. }
+      destruct (exec_block P f (combine (fparams d) bv) (fbody d)) as [[ob Eb] gb] eqn:Hb.
+      assert (Hkb : okg gb).
+      { destruct gb as [| | |rv|k1]; try (repeat split; discriminate).
+        injection Hx as <- <-. destruct Hk as (H1 & H2 & H3). repeat split; congruence. }
+      destruct (IHB _ _ _ _ _ _ _ _ _ _ Hb Hkb Hlb (init_dom _ _ Hlb') Hwb) as ([F HF] & _ & _).
+      exists (S F). intros F' HF'. fuelS F'. cbn [lower_c]. fold ws. rewrite Hf, Hsel, Hl. rewrite Hlc.
+      cbn [rcev_with rcall]. rewrite Hrf, Hargs. cbn [rparams rret rbody].
+      rewrite Hlb', Nat.eqb_refl. cbn [negb]. rewrite HF by lia. exact Hx.
+    + (* an argument did not evaluate: only ZeroDivisionError is a defined outcome *)
+      injection Hx as <- <-.
+      assert (r0 = EZeroDiv) by (destruct Hk as (H1 & H2 & H3); destruct r0; cbn in *; congruence). subst r0.
+      apply orb_prop in Hw. destruct Hw as [Hid | Hat].
+      2:{ exfalso. eapply atoms_no_zd; eauto. }
+      apply andb_prop in Hid. destruct Hid as [Hn Hs]. apply Nat.eqb_eq in Hn. apply is_seq_spec in Hs.
+      assert (Hsel' : sel = seq 0 (length (map (lower_expr sc) ws))).
+      { rewrite Hs, Hn, map_length. unfold ws. now rewrite app_length, map_length. }
+      exists 1%nat. intros F' HF. fuelS F'. cbn [lower_c]. fold ws. rewrite Hf, Hsel, Hsel', pick_seq. rewrite Hlc.
+      cbn [rcev_with rcall]. rewrite Hrf, map_map.
+      pose proof (args_same_order sc E ws) as Ha. rewrite Ea in Ha. rewrite Ha. reflexivity.
 Qed.
 
-Lemma sim_all f : SimS f /\ SimB f /\ SimE f /\ SimR f.
+Lemma sim_all f : SimS f /\ SimB f /\ SimE f /\ SimR f /\ SimC f.
 Proof.
   induction f as [|f IH]; [|now apply sim_step].
-  split; [|split; [|split]]; red; intros; cbn in *;
-  match goal with H : (_, _, Halt OutOfFuel) = (_, _, ?g), K : okg ?g |- _ =>
-    injection H as <- <- <-; destruct K as (K & _); congruence end.
+  split; [|split; [|split; [|split]]]; red; intros; cbn in *;
+  match goal with
+  | H : (_, _, Halt OutOfFuel) = (_, _, ?g), K : okg ?g |- _ =>
+      injection H as <- <- <-; destruct K as (K & _); congruence
+  | H : (_, CHalt OutOfFuel) = (_, ?r), K : okc ?r |- _ =>
+      injection H as <- <-; destruct K as (K & _); congruence
+  end.
 Qed.
 
-(* ---------------------------------------------------------------- whole functions *)
+End Sim.
 
-Lemma init_dom ps av : length ps = length av -> dom_ok (init_scopes ps) (combine ps (map VI av)).
+(* ---------------------------------------------------------------- whole programs *)
+
+Lemma find_fn_in f l d : find_fn f l = Some d -> In d l.
 Proof.
-  unfold dom_ok, names, init_scopes. cbn. rewrite app_nil_r, map_map. cbn.
-  revert av. induction ps as [|p r IH]; intros [|a av] H; cbn in *; try discriminate; [reflexivity|].
-  f_equal. apply IH. lia.
+  induction l as [|x r IH]; cbn; [discriminate|]. destruct (f =? fname x); [intros [= <-]; now left|]. intros H. right. auto.
+Qed.
+
+Lemma table_of_lowering P : forall l mv fs,
+  lower_fns P mv l = LOk fs -> (forall d, In d l -> calls_wf_block P (fbody d) = true) ->
+  forall f d, find_fn f l = Some d ->
+  exists ib mv0 sc' mv',
+    lower_block P (init_scopes (fparams d)) mv0 (fbody d) = LOk (ib, sc', mv') /\
+    find_rfn f (tree_of_fns fs) = Some {| rname := fname d; rparams := fparams d; rret := fret d; rbody := tree_of_block ib |} /\
+    calls_wf_block P (fbody d) = true.
+Proof.
+  induction l as [|x r IH]; intros mv fs Hl Hw f d Hf; cbn in Hf; [discriminate|].
+  cbn [lower_fns] in Hl.
+  destruct (lower_block P (init_scopes (fparams x)) mv (fbody x)) as [[[b sc1] mv1]|] eqn:Hb; [|discriminate].
+  destruct (lower_fns P mv1 r) as [rest|] eqn:Hr; [|discriminate]. injection Hl as <-.
+  cbn [tree_of_fns map find_rfn tree_of_fn rname iname].
+  destruct (f =? fname x) eqn:Hx.
+  - injection Hf as <-. exists b, mv, sc1, mv1. split; [exact Hb|]. split; [reflexivity|]. apply Hw. now left.
+  - eapply IH; eauto. intros d0 Hd0. apply Hw. now right.
 Qed.
 
 Definition okstop (k : stop) : Prop := k <> OutOfFuel /\ k <> Unspec /\ k <> Stuck.
 
+Lemma atoms_of_ints l : forallb atom (map EInt l) = true.
+Proof. induction l; cbn; auto. Qed.
+
+Lemma entry_call_wf P f l : call_wf P (CCall f (map EInt l) []) = true.
+Proof.
+  cbn [call_wf]. destruct (find_fn f P); [|reflexivity].
+  destruct (select _ _ _ _); [|reflexivity]. cbn [map]. rewrite app_nil_r, atoms_of_ints. apply orb_true_r.
+Qed.
+
+Lemma lower_c_call P sc f pos kw : exists l, lower_c P sc (CCall f pos kw) = ICallU f l.
+Proof.
+  cbn [lower_c]. destruct (find_fn f P); [|eauto]. destruct (select _ _ _ _); [|eauto].
+  destruct (pick _ _); eauto.
+Qed.
+
 Lemma compile_correct c fuel out k :
   known_grouping c = false ->
-  (exists ib, lower_fn c = LOk ib) ->
+  (exists fs, lower_prog (cprog c) = LOk fs) ->
+  calls_wf (cprog c) = true ->
   run fuel c = (out, k) -> okstop k ->
-  exists ts b, compile c = COk ts b /\
-    exists F, forall F', (F <= F')%nat -> rrun F' (params c) (args c) b = (out, k).
+  exists ts p, compile c = COk ts p /\
+    exists F, forall F', (F <= F')%nat -> rrun F' p (centry c) (entry_args c) = (out, k).
 Proof.
-  intros Hg [ib Hl] Hr Hk.
+  intros Hg [fs Hl] Hw Hr Hk.
   unfold known_grouping in Hg. rewrite Hl in Hg. apply negb_false_iff in Hg. apply reparses_true in Hg.
-  exists (emit_block ib), (tree_of_block ib). split.
+  exists (emit_fns fs), (tree_of_fns fs). split.
   { unfold compile. rewrite Hl, Hg. reflexivity. }
-  unfold run in Hr. destruct (Nat.eqb (length (params c)) (length (args c))) eqn:Hlen; cbn [negb] in Hr.
-  2:{ injection Hr as <- <-. destruct Hk as (_ & _ & H). congruence. }
-  apply Nat.eqb_eq in Hlen.
-  destruct (exec_block fuel (init_env c) (body c)) as [[o E'] g] eqn:Hx. injection Hr as <- <-.
-  unfold lower_fn in Hl.
-  destruct (lower_block (init_scopes (params c)) [] (body c)) as [[[b' sc'] mv']|] eqn:Hlb; [|discriminate].
-  injection Hl as <-.
-  assert (Hkg : okg g).
-  { destruct Hk as (H1 & H2 & H3). destruct g; cbn [final] in *; repeat split; try discriminate; congruence. }
-  destruct (proj1 (proj2 (sim_all fuel)) _ _ _ _ _ _ _ _ _ _ Hx Hkg Hlb (init_dom _ _ Hlen)) as ([F HF] & _ & _).
-  exists F. intros F' HF'. unfold rrun. rewrite (proj2 (Nat.eqb_eq _ _) Hlen). cbn [negb].
-  unfold init_env in HF. rewrite HF by lia. reflexivity.
+  set (P := cprog c) in *.
+  assert (Htab : forall f d, find_fn f P = Some d ->
+    exists ib mv sc' mv',
+      lower_block P (init_scopes (fparams d)) mv (fbody d) = LOk (ib, sc', mv') /\
+      find_rfn f (tree_of_fns fs) = Some {| rname := fname d; rparams := fparams d; rret := fret d; rbody := tree_of_block ib |} /\
+      calls_wf_block P (fbody d) = true).
+  { intros f d Hf. eapply (table_of_lowering P P [] fs Hl); eauto.
+    intros d0 Hd0. unfold calls_wf in Hw. rewrite forallb_forall in Hw. now apply Hw. }
+  unfold run in Hr. fold P in Hr.
+  destruct (call P fuel [] (centry c) (map EInt (args c)) []) as [o r] eqn:Hc.
+  assert (Hkc : okc r).
+  { destruct Hk as (H1 & H2 & H3). destruct r as [v|k0]; injection Hr as <- <-; repeat split; congruence. }
+  destruct (proj2 (proj2 (proj2 (proj2 (sim_all P (tree_of_fns fs) Htab fuel)))) [] [] _ _ _ _ _ Hc Hkc (entry_call_wf _ _ _))
+    as [F HF].
+  exists F. intros F' HF'. specialize (HF F' HF').
+  unfold rrun, entry_args. fold P.
+  destruct (lower_c_call P [] (centry c) (map EInt (args c)) []) as [l Hlc]. rewrite Hlc in *.
+  cbn [tree_of_c rcev_with] in HF. rewrite HF.
+  destruct r; injection Hr as <- <-; reflexivity.
 Qed.
